@@ -10,6 +10,7 @@ pub mod c05;
 pub mod c06;
 pub mod c07;
 pub mod c08;
+pub mod c09;
 pub mod c11;
 pub mod c12;
 pub mod c13;
@@ -42,6 +43,7 @@ pub fn lookup(id: &str) -> Option<Prop> {
         "C06" => c06::PROP,
         "C07" => c07::PROP,
         "C08" => c08::PROP,
+        "C09" => c09::PROP,
         "C10" => sigh::PROP_C10,
         "C11" => c11::PROP,
         "C12" => c12::PROP,
